@@ -55,26 +55,34 @@ def parseState (toks : List String) : Option St := do
 structure HistState where
   prev : Option St := none
   crashed : Bool := false
+  /-- the last step was a write transaction that ended without a successful commit -/
+  abandoned : Bool := false
 
 /-- the first page violating `moveOk`, for the report -/
 def firstBadMove (s s' : St) : Option Nat := s.alloc.find? (fun p => !moveOk s s' p)
 
 def histStep (st : HistState) (req : List String) : HistState × String :=
   match req with
-  | "cfg" :: _ => ({ prev := none, crashed := false }, "ok")
-  | "step" :: what :: _ =>
-    ({ st with crashed := st.crashed || what.startsWith "CrashReopen" }, "ok")
+  | "cfg" :: _ => ({ prev := none, crashed := false, abandoned := false }, "ok")
+  | "step" :: what :: rest =>
+    let isTxn := what = "txn"
+    let ended := rest.any (fun t => t = "end=Abort" || t = "end=Drop")
+    let refused := rest.any (fun t => t.startsWith "err:commit")
+    ({ st with crashed := st.crashed || what.startsWith "CrashReopen",
+               abandoned := isTxn && (ended || refused) }, "ok")
   | "state" :: toks =>
     match parseState toks with
     | none => (st, "bad-op")
     | some s =>
-      let next : HistState := { prev := some s, crashed := false }
+      let next : HistState := { prev := some s, crashed := false, abandoned := false }
       if !ownOk s then (next, "DIFF own: some page has no owner, two owners, or an owner but no allocation")
       else if !pinOk s then (next, "DIFF pin: a pinned snapshot reaches a page that is neither in the latest tree nor in a later pending-free record")
       else match st.prev with
         | none => (next, "ok")
         | some p =>
-          if stepOk st.crashed p s then (next, "ok")
+          if st.abandoned && !abortOk p s then
+            (next, "DIFF abort: an abandoned write transaction changed the page accounting (allocated set, owners, pending-free records or committed ids)")
+          else if stepOk st.crashed p s then (next, "ok")
           else match firstBadMove p s with
             | some pg => (next, s!"DIFF step: page {pg} changed owner or was released while a surviving pin or the durable root still reaches it")
             | none => (next, "DIFF step: transaction ids went backwards")
